@@ -20,8 +20,8 @@ def record(maxnodes=48):
     out = os.path.join(d, "events.ndjson")
     env = dict(os.environ, PYTHONPATH=ROOT, VERIF_REPO=repo, VERIF_SUITE_OUT=out, VERIF_SUITE_MAXNODES=str(maxnodes), PYTHONDONTWRITEBYTECODE="1", PYTHONHASHSEED="0")
     env.pop("FIBERTREE_VERIF", None)
-    r = subprocess.run([sys.executable, "-B", "-m", "pytest", "-q", "-p", "no:cacheprovider", "-p", "harness.suite_trace", "--timeout=900", "--continue-on-collection-errors", "test"],
-                       cwd=d, env=env, text=True, capture_output=True, timeout=3000)
+    r = subprocess.run([sys.executable, "-B", "-m", "pytest", "-q", "-p", "no:cacheprovider", "-p", "harness.suite_trace", "--timeout=30", "--continue-on-collection-errors", "test"],
+                       cwd=d, env=env, text=True, capture_output=True, timeout=900)
     if not os.path.exists(out):
         raise tlc.TLCError("suite tracer produced no events:\n" + r.stdout[-2000:] + r.stderr[-2000:])
     events = [json.loads(ln) for ln in open(out)]
